@@ -88,13 +88,29 @@ def gen(rng, tier, spec):
             else:
                 sl = rng.pick(held[t]) if held[t] and rng.chance(9, 10) else rng.below(nslots)
                 progs[t].append([o, sl])
+    # throw plan (about 15% of the cases): global indices of the copies of X that throw; aimed at the
+    # const X& setters and at fulfillAllPromises (one copy per pending promise)
+    plan = []
+    if rng.chance(3, 20):
+        for p in progs:
+            for op in p:
+                if op[0] == SETM and rng.chance(2, 3):
+                    op[0] = SETC
+        if not any(op[0] in (SETC, FULFILL) for p in progs for op in p):
+            t = rng.below(nt)
+            kd, ky = key()
+            progs[t].append([SETC, kd, ky, fresh_val(t)] if rng.chance(1, 2) else [FULFILL, 5000 + fresh_val(t)])
+        ncopy = sum(1 for p in progs for op in p if op[0] == SETC) + \
+            sum(min(len(requested), 3) for p in progs for op in p if op[0] == FULFILL)
+        n = rng.weighted([(3, 1), (2, 2), (1, 3)])
+        plan = sorted(set(rng.below(max(1, ncopy)) for _ in range(n)))
     cw = ((1, 0),)
     kind = rng.below(8)
     if kind == 4:
         # boundary-aimed: stop one thread right after its invoke (1), inside its critical section (2),
         # or after the unlock (3) of its j-th operation, and let the others run
         first = rng.below(nt)
-        k = 3 * rng.below(len(progs[first])) + rng.range(1, 3)
+        k = 3 * rng.below(len(progs[first])) + rng.range(1, 4)
         sched = R.sched_boundary(rng, nt, first, k, rng.range(0, 40), cw)
     elif kind == 5:
         sched = []                 # the fair tail only (round robin)
@@ -116,7 +132,7 @@ def gen(rng, tier, spec):
         sched += R.sched_random(rng, nt, rng.range(0, 30), cw)
     else:
         sched = R.any_sched(rng, nt, 50, cw)
-    return {'cfg': [nslots], 'progs': progs, 'sched': sched}
+    return {'cfg': [nslots] + plan, 'progs': progs, 'sched': sched}
 
 
 # ----------------------------------------------------------------------------- reference specification
